@@ -149,7 +149,16 @@ def gen_inject_program(r):
     for _ in range(r.randint(1, 3)):
       p = r.choice(callees)
       args = []
+      wide_pick = None
+      if len(sigs[p]) > 5:        # a wide callee: a few columns, each addressed as colN (col10 and beyond among them)
+        wide_pick = set(r.sample(range(len(sigs[p])), 2) + [r.randint(10, len(sigs[p]) - 1)])
       for f in sigs[p]:
+        if wide_pick is not None:
+          if f in wide_pick:
+            v = r.choice(VARS)
+            bound.append(v)
+            args.append('col%d: %s' % (f, v))
+          continue
         if r.random() < 0.2 and not isinstance(f, str) and f != 0:
           break                 # partial positional arguments
         k = r.random()
@@ -183,10 +192,13 @@ def gen_inject_program(r):
         body.append('%s + 1 == %s + %d' % (r.choice(bound), r.choice(bound), r.randint(0, 2)))
     r.shuffle(body)
     ar = r.randint(1, 3)
+    wide = d < nd - 1 and r.random() < 0.08
+    if wide:
+      ar = r.randint(11, 13)
     fields, head = [], []
     for i in range(ar):
       e = r.choice(bound) if r.random() < 0.75 else '%s + %d' % (r.choice(bound), r.randint(1, 2))
-      k = r.random()
+      k = 0.0 if wide else r.random()
       if k < 0.6 and all(':' not in h for h in head):
         fields.append(i)
         head.append(e)
